@@ -38,6 +38,12 @@ def gen_input(rng, with_typing):
     return src, entries
 
 
+# what --prepend carries: a statement; text that merely MENTIONS typing names; an import of a name that CONTAINS a typing name;
+# a __future__ import next to a plain import
+PREPENDS = ["PREPENDED = True\n", '"""Optional settings; Listing of the Union members"""\n', "from typing import NamedTuple, OrderedDict  # Optional extras\n",
+            "from __future__ import annotations\nimport os\n", "from __future__ import annotations\nfrom . import sibling\n"]
+
+
 def top_level_symbols(tree):
     out = []
     for node in tree.body:
@@ -71,7 +77,7 @@ def case_worker(case):
         if opts["infer_imports"]:
             argv.append("--emit-and-infer-imports")
         if opts["prepend"]:
-            argv += ["--prepend", "PREPENDED = True\n"]
+            argv += ["--prepend", PREPENDS[(int(opts["prepend"]) - 1) % len(PREPENDS)]]
         if opts["no_word_wrap"]:
             argv.append("--no-word-wrap")
         res["argv"] = argv[1:]
@@ -173,12 +179,18 @@ def gen_cases(ctx):
     for i in range(n):
         emit = EMITS[i % len(EMITS)] if i < 2 * len(EMITS) else rng.choice(EMITS)
         opts = {"emit": emit, "parse": rng.choice(["class", "infer"]), "tpl": list(rng.choice(TPLS)),
-                "infer_imports": rng.random() < 0.4, "prepend": rng.random() < 0.25, "no_word_wrap": rng.random() < 0.3,
+                "infer_imports": rng.random() < 0.4, "prepend": rng.randrange(1, 1 + len(PREPENDS)) if rng.random() < 0.4 else 0, "no_word_wrap": rng.random() < 0.3,
                 "out_exists": rng.random() < 0.25, "tilde": rng.random() < 0.4,
                 "typing": ("sql" if emit.startswith("sqlalchemy") else True) if rng.random() < 0.6 else False}
         if opts["infer_imports"] and rng.random() < 0.7:
             opts["typing"] = "uniform"
         cases.append((rng.randrange(1 << 30), opts))
+    # fixed corner cases: import inference next to a --prepend that only MENTIONS the needed typing name (prose / longer identifier),
+    # in the region where inference works on the pinned tree (every entry needs exactly `from typing import Optional`)
+    for emit in ("class", "argparse"):
+        for prepend in (2, 3):
+            cases.append((rng.randrange(1 << 30), {"emit": emit, "parse": "class", "tpl": ["", "Cfg"], "infer_imports": True, "prepend": prepend,
+                                                   "no_word_wrap": False, "out_exists": False, "tilde": False, "typing": "uniform"}))
     return cases
 
 
